@@ -59,7 +59,7 @@ def run(ctx):
     tab.eval()
     ys = strs(2, 2)
     # ---- composition with transducers
-    jobs, plan = [], []
+    jobs, plan, grows = [], [], {}
     for gi, g in enumerate(gs):
         t = None
         while t is None or not no_input_eps_cycle(t):
@@ -73,7 +73,12 @@ def run(ctx):
                     t["arcs"].append([q0 + 1, 1, 1, t["final"][0][0] if t["final"] else q0, "1/4"])
         order = "cfg@fst" if gi % 2 == 0 else "fst@cfg"
         # every third job uses integer symbols on both tapes (0 is falsy, unlike a one-letter string)
-        jobs.append({"tnames": ("int" if gi % 3 == 2 else "str"), "queries": [{"op": "cfg_compose", "g": g, "t": t, "ys": ys, "order": order, "timeout": 40}]})
+        # (only for cfg @ fst: fst.T is a cached property of a mutable machine, so the transposed order is not meaningful here)
+        grow = ctx.rng.randint(1, max(1, len(t["arcs"]) - 1)) if (gi % 5 in (1, 3) and order == "cfg@fst" and len(t["arcs"]) > 1) else 0
+        if grow:
+            ctx.dist("transducer-completed-after-a-first-composition")
+        jobs.append({"tnames": ("int" if gi % 3 == 2 else "str"), "queries": [{"op": "cfg_compose", "g": g, "t": t, "ys": ys, "order": order, "grow": grow, "timeout": 40}]})
+        grows[gi] = grow
         plan.append((gi, g, t, order))
     res = run_w(jobs)
     for (gi, g, t, order), r in zip(plan, res):
@@ -93,7 +98,7 @@ def run(ctx):
             ctx.count_case((gi, order, tuple(y)), nontrivial=ref != 0)
             ctx.cov["oracle_cases"] += 1
             if not close_enough(v, ref, rel=1e-9):
-                viol(ctx, f"compose:{order}", f"({order})({y}) = {v}; sum over x of grammar(x) * transducer(x, y) = {ref}", {"kind": "compose", "tnames": ("int" if gi % 3 == 2 else "str"), "grammar": g, "t": t, "order": order, "ys": y, "observed": str(v), "expected": str(ref)})
+                viol(ctx, f"compose:{order}", f"({order})({y}) = {v}; sum over x of grammar(x) * transducer(x, y) = {ref}", {"kind": "compose", "tnames": ("int" if gi % 3 == 2 else "str"), "grow": grows.get(gi, 0), "grammar": g, "t": t, "order": order, "ys": y, "observed": str(v), "expected": str(ref)})
     # ---- chained operations on a composed grammar: truncation, and a second composition
     jobs, cplan = [], []
     for (gi, g, t, order) in plan[: (20 if quick else 200)]:
@@ -195,7 +200,7 @@ def replay(obj):
         op = {"op": "compose_string_treesum", "xs": [obj.get("xs", [])]} if obj["what"] == "string" else {"op": "truncate_call", "n": obj.get("n", 0), "xs": [obj.get("xs", [])]}
         r = run_jobs([{"g": obj["grammar"], "sr": obj.get("sr", "frac"), "queries": [op]}])[0][0]
     else:
-        r = run_w([{"tnames": obj.get("tnames", "str"), "queries": [{"op": "cfg_compose", "g": obj["grammar"], "t": obj["t"], "ys": [obj.get("ys", [])], "order": obj["order"]}]}])[0][0]
+        r = run_w([{"tnames": obj.get("tnames", "str"), "queries": [{"op": "cfg_compose", "g": obj["grammar"], "t": obj["t"], "ys": [obj.get("ys", [])], "order": obj["order"], "grow": obj.get("grow", 0)}]}])[0][0]
     print(json.dumps({k: v for k, v in obj.items() if k in ("grammar", "t", "order", "ys", "xs", "n")}))
     print("->", r, "expected:", obj.get("expected"))
     return 0
